@@ -58,6 +58,14 @@ CHECKS["C04"] = dict(
          "only tested on the real code (labelled a test).",
     design="5 C04", technique="Lean 4 proof (partial) + exact rational landscape model vs real landscape")
 
+CHECKS["C07"] = dict(
+    text="Theorems over arbitrary voxel sets (Mathlib Finset sums): ZNCC/NCC num^2 <= den^2, self score "
+         "1, gain/offset invariance (gain only under a mask), ZNCC = Pearson, landscape centre = zncc, "
+         "zero-range alignment samples that entry, PCC landscape/alignment lag agreement. Structure of "
+         "ncc/zncc/_score/fsc and of the mask -> pre-transform -> wedge chain is read from the AST. FFTs "
+         "and sqrt are parameters; real scores compared with the exact (num, den2) model.",
+    design="5 C07", technique="Lean 4 proof (Cauchy-Schwarz) + structural AST facts + score correspondence")
+
 NOT_YET = {}
 
 
